@@ -200,7 +200,12 @@ func (g *SessionManager) getXid(msg interface{}) string {
 		if msgType.Kind() == reflect.Ptr {
 			msgValue = msgValue.Elem()
 		}
-		xid = msgValue.FieldByName("Xid").String()
+		// a message without an xid (registrations, heart beats) routes by ""
+		if msgValue.Kind() == reflect.Struct {
+			if f := msgValue.FieldByName("Xid"); f.IsValid() && f.Kind() == reflect.String {
+				xid = f.String()
+			}
+		}
 	}
 	return xid
 }
